@@ -66,7 +66,7 @@ def run(tier):
     quick = tier != 'thorough'
     cases = []
     r0 = vf.tlc_must_pass('RegpReqMC.tla', 'RegpReqMCq.cfg' if quick else 'RegpReqMC.cfg', 'regpreq', heap='16g',
-                          sink=lambda b: cases.append(b[3:]) if b.startswith('C;;') else None)
+                          sink=lambda b: cases.append(flavoured(b[3:])) if b.startswith('C;;') else None)
     v.add_tlc(r0)
     res1 = vf.run_scripts('regp', [cases[i:i + 500] for i in range(0, len(cases), 500)], 'C06', name='rqc')
     v.exec_problems(res1, 'regp')
